@@ -568,16 +568,16 @@ func genLoc(r *rng.R, maxDepth int) []string {
 func genNodeOp(r *rng.R, kind string, loc []string) op {
 	o := op{K: kind, Loc: loc}
 	switch x := r.Intn(100); {
-	case x < 50:
+	case x < 52:
 		o.T = "file"
 		o.X = r.Chance(30)
 		o.D = contents[r.Intn(len(contents))]
-	case x < 68:
+	case x < 72:
 		o.T = "dir"
-	case x < 90:
+	case x < 94:
 		o.T = "sym"
 		o.D = targets[r.Intn(len(targets))]
-		if r.Chance(4) {
+		if r.Chance(1) {
 			o.D = "a\x00b"
 		}
 	default:
@@ -586,21 +586,179 @@ func genNodeOp(r *rng.R, kind string, loc []string) op {
 	return o
 }
 
+// lexical resolves a relative path the way the generator needs it (to aim
+// output paths at existing locations); nil, false if it escapes.
+func lexical(base []string, p string) ([]string, bool) {
+	st := append([]string(nil), base...)
+	for _, c := range strings.Split(p, "/") {
+		switch c {
+		case "", ".":
+		case "..":
+			if len(st) == 0 {
+				return nil, false
+			}
+			st = st[:len(st)-1]
+		default:
+			st = append(st, c)
+		}
+	}
+	return st, true
+}
+
+// decorate renders a component list as a path string with redundant
+// components that do not change its meaning.
+func decorate(r *rng.R, comps []string) string {
+	var out []string
+	for _, c := range comps {
+		if r.Chance(8) {
+			out = append(out, ".")
+		}
+		if r.Chance(6) && len(out) > 0 {
+			out = append(out, "")
+		}
+		out = append(out, c)
+		if r.Chance(6) && c != ".." {
+			out = append(out, nameAlphabet[r.Intn(3)], "..")
+		}
+	}
+	p := strings.Join(out, "/")
+	switch x := r.Intn(100); {
+	case x < 8:
+		p += "/"
+	case x < 12:
+		p += "/."
+	case x < 14 && len(comps) > 0 && comps[len(comps)-1] != "..":
+		p += "/c/.."
+	}
+	return p
+}
+
+// relativeTo gives the components leading from directory w to location l.
+func relativeTo(w, l []string) []string {
+	i := 0
+	for i < len(w) && i < len(l) && w[i] == l[i] {
+		i++
+	}
+	var out []string
+	for j := i; j < len(w); j++ {
+		out = append(out, "..")
+	}
+	return append(out, l[i:]...)
+}
+
 func (area) Generate(r *rng.R, thorough bool, index int) json.RawMessage {
 	var h history
-	if r.Chance(55) {
-		h.WD = ""
-	} else {
-		h.WD = genPath(r, 3)
-	}
 	h.TAD = r.Intn(4)
 	h.Force = r.Chance(25)
+
+	// What the action leaves behind.
+	var postOps []op
+	budget := 8 + r.Intn(28)
+	if thorough {
+		budget = 8 + r.Intn(33)
+	}
+	if r.Chance(50) {
+		// a template sub-tree, instantiated under several prefixes
+		var tmpl []op
+		for i := 1 + r.Intn(5); i > 0; i-- {
+			tmpl = append(tmpl, genNodeOp(r, "post", genLoc(r, 2)))
+		}
+		for copies := 2 + r.Intn(2); copies > 0; copies-- {
+			prefix := genLoc(r, 3)
+			for _, t := range tmpl {
+				o := t
+				o.Loc = append(append([]string(nil), prefix...), t.Loc...)
+				postOps = append(postOps, o)
+				budget--
+			}
+		}
+	}
+	for ; budget > 0; budget-- {
+		if r.Chance(3) {
+			postOps = append(postOps, op{K: "rm", Loc: genLoc(r, 3)})
+		} else {
+			postOps = append(postOps, genNodeOp(r, "post", genLoc(r, 5)))
+		}
+	}
+	// Input root: a few nodes, mostly directories and deeper files.
+	var preOps []op
+	for i := r.Intn(6); i > 0; i-- {
+		o := genNodeOp(r, "pre", genLoc(r, 3))
+		if len(o.Loc) < 3 && r.Chance(75) {
+			o.T = "dir"
+		}
+		preOps = append(preOps, o)
+	}
+	// Locations to aim output paths at: mostly nodes of the final tree
+	// (simulated without the parent directories), sometimes locations that
+	// an operation named but that ended up blocked or removed.
+	sim := &fnode{kind: kDir}
+	for _, o := range preOps {
+		put(sim, o, false)
+	}
+	var rawLocs, locs [][]string
+	for _, o := range postOps {
+		if o.K == "rm" {
+			remove(sim, o.Loc)
+		} else {
+			put(sim, o, true)
+		}
+		for i := 1; i <= len(o.Loc); i++ {
+			rawLocs = append(rawLocs, o.Loc[:i])
+		}
+	}
+	var collect func(n *fnode, here []string)
+	collect = func(n *fnode, here []string) {
+		for _, e := range n.children {
+			l := append(append([]string(nil), here...), e.name)
+			locs = append(locs, l)
+			collect(e.n, l)
+		}
+	}
+	collect(sim, nil)
+	for i := len(locs) / 6; i > 0 && len(rawLocs) > 0; i-- {
+		locs = append(locs, rawLocs[r.Intn(len(rawLocs))])
+	}
+
+	// Working directory.
+	var wdComps []string
+	wdOK := true
+	switch x := r.Intn(100); {
+	case x < 45:
+		h.WD = ""
+	case x < 80:
+		wdComps = genLoc(r, 2)
+		if r.Chance(50) && len(locs) > 0 {
+			wdComps = locs[r.Intn(len(locs))]
+			if len(wdComps) > 2 {
+				wdComps = wdComps[:2]
+			}
+		}
+		h.WD = decorate(r, wdComps)
+	default:
+		h.WD = genPath(r, 3)
+		wdComps, wdOK = lexical(nil, h.WD)
+	}
+
+	// Output paths: aimed at locations of the final tree (under several
+	// spellings), aliases of earlier ones, or random.
 	npaths := r.Intn(9)
+	var targets [][]string
 	var paths []string
 	for i := 0; i < npaths; i++ {
-		if len(paths) > 0 && r.Chance(20) {
+		switch x := r.Intn(100); {
+		case x < 55 && len(locs) > 0 && wdOK:
+			l := locs[r.Intn(len(locs))]
+			targets = append(targets, l)
+			paths = append(paths, decorate(r, relativeTo(wdComps, l)))
+		case x < 70 && len(targets) > 0 && wdOK:
+			l := targets[r.Intn(len(targets))]
+			paths = append(paths, decorate(r, relativeTo(wdComps, l)))
+		case x < 80 && len(paths) > 0:
 			paths = append(paths, paths[r.Intn(len(paths))])
-		} else {
+		case x < 84 && wdOK:
+			paths = append(paths, decorate(r, relativeTo(wdComps, nil))) // the input root itself
+		default:
 			paths = append(paths, genPath(r, 5))
 		}
 	}
@@ -615,36 +773,8 @@ func (area) Generate(r *rng.R, thorough bool, index int) json.RawMessage {
 	for _, p := range paths {
 		h.Ops = append(h.Ops, op{K: "path", P: p})
 	}
-	for i := r.Intn(7); i > 0; i-- {
-		h.Ops = append(h.Ops, genNodeOp(r, "pre", genLoc(r, 3)))
-	}
-	budget := 10 + r.Intn(26)
-	if thorough {
-		budget = 10 + r.Intn(31)
-	}
-	// a template sub-tree, instantiated under several prefixes
-	if r.Chance(50) {
-		var tmpl []op
-		for i := 1 + r.Intn(5); i > 0; i-- {
-			tmpl = append(tmpl, genNodeOp(r, "post", genLoc(r, 2)))
-		}
-		for copies := 2 + r.Intn(2); copies > 0; copies-- {
-			prefix := genLoc(r, 3)
-			for _, t := range tmpl {
-				o := t
-				o.Loc = append(append([]string(nil), prefix...), t.Loc...)
-				h.Ops = append(h.Ops, o)
-				budget--
-			}
-		}
-	}
-	for ; budget > 0; budget-- {
-		if r.Chance(5) {
-			h.Ops = append(h.Ops, op{K: "rm", Loc: genLoc(r, 3)})
-		} else {
-			h.Ops = append(h.Ops, genNodeOp(r, "post", genLoc(r, 5)))
-		}
-	}
+	h.Ops = append(h.Ops, preOps...)
+	h.Ops = append(h.Ops, postOps...)
 	data, _ := json.Marshal(h)
 	return data
 }
@@ -727,9 +857,16 @@ func (area) Execute(raw json.RawMessage) (term string, info *hcommon.Info, err e
 		if c := post.count(); c > info.Extra["max_nodes"] {
 			info.Extra["max_nodes"] = c
 		}
-		upErr = oh.UploadOutputs(ctx, rootDir, fakeCAS{w}, w.digestFunction, nil, result, h.Force) != nil
+		uerr := oh.UploadOutputs(ctx, rootDir, fakeCAS{w}, w.digestFunction, nil, result, h.Force)
+		upErr = uerr != nil
 		if upErr {
 			info.Outs["upload-error"]++
+			// error text is only classified for the coverage histogram, never compared
+			msg := status.Convert(uerr).Message()
+			if i := strings.Index(msg, " \""); i > 0 {
+				msg = msg[:i]
+			}
+			info.Outs["upload-error: "+msg]++
 		} else {
 			info.Outs["upload-ok"]++
 		}
